@@ -31,6 +31,9 @@ type udpServerOpts struct {
 	Timeout   time.Duration
 	Metrics   *RecMetrics
 	Validator onet.TargetIPValidator
+	// Direct hands the simulated socket itself to the handler (no shared
+	// listener in between), so that the socket's read log is the handler's.
+	Direct bool
 }
 
 func startUDPServer(rc *RunCtx, w *simnet.World, o udpServerOpts) *udpServer {
@@ -40,8 +43,13 @@ func startUDPServer(rc *RunCtx, w *simnet.World, o udpServerOpts) *udpServer {
 	}
 	s.Ciphers = service.NewCipherList()
 	s.Ciphers.Update(mkCipherList(o.Keys))
-	lm := service.NewListenerManager()
-	pc, err := lm.ListenPacket(net.JoinHostPort(proxyIP.String(), "9000"))
+	var pc net.PacketConn
+	var err error
+	if o.Direct {
+		pc, err = simnet.ListenPacket("udp", net.JoinHostPort(proxyIP.String(), "9000"))
+	} else {
+		pc, err = service.NewListenerManager().ListenPacket(net.JoinHostPort(proxyIP.String(), "9000"))
+	}
 	if err != nil {
 		panic(err)
 	}
